@@ -158,7 +158,7 @@ def exits(ctx, write_guarded):
                 x = look(e[1][1])
                 while is_call(x, "map_err") and x[2]:
                     x = look(x[2][0])
-                if is_call(x, "accept"):
+                if is_call(x, "accept") or (is_call(x, "std::io::Write::write") and any(is_call(y, "accept") for y in subterms(x) if isinstance(y, tuple))):
                     cause = "accept/refusal-write I/O error"
         if cause is None:
             ctx.fail("R09.1", "exit|unrecognised|%s" % sorted(names), "requests() can fail with %s on a path the checker does not know (fail closed)" % sorted(names), fn.loc(lf.bb), witness="blocks %s" % lf.trace[-10:])
@@ -250,8 +250,37 @@ def pairing(ctx, rule):
                         if e[0] == "call" and e[1] == bb and is_connections(e[4][2][0]):
                             removers.append((f.name, bb, last_seg(p), e))
     sites = {(r[0], r[1], r[2]) for r in removers}
+    # the sweep in two steps: collect the fds of the done connections, then for each: epoll_del(fd); connections.remove(&fd)
+    two_step = [r for r in removers if r[2] == "remove"]
+    if two_step and all(r[2] == "remove" for r in removers):
+        okall = True
+        fnr, lvr = leaves(ctx, srv.REQUESTS)
+        n2 = 0
+        for lf in lvr:
+            rm = [e for e in lf.events if e[0] == "call" and "HashMap" in e[3] and last_seg(e[3]) == "remove" and is_connections(e[4][2][0])]
+            if not rm:
+                continue
+            n2 += 1
+            dead = srv.dead_sweep(facts, lf)
+            from .util import payload_of
+            key = look(rm[0][4][2][1])
+            src = payload_of(key)
+            item_ok = False
+            if dead is not None and src is not None and is_call(src, "next"):
+                it = look(src[2][0])
+                while it[0] == "mut" or is_call(it, "into_iter"):
+                    it = look(it[1]) if it[0] == "mut" else look(it[2][0])
+                item_ok = norm(it) == norm(look(dead))
+            dels = calls(lf, S + "epoll_del")
+            same = len(dels) == 1 and norm(look(dels[0][4][2][1])) == norm(key) and lf.events.index(dels[0]) < lf.events.index(rm[0])
+            okall = okall and len(rm) == 1 and item_ok and same
+        ctx.ob(rule, "remove|only-retain-in-requests", okall and n2 >= 1, "removals from the connection map: each fd of the list of done connections is deregistered with epoll_del and then removed (%d path(s))" % n2)
+        ctx.ob(rule, "remove|dropped-iff-done+epoll_del", okall and n2 >= 1, "an entry is dropped only when is_done() held for it, after epoll_del of its own key")
+        removers = []
+        sites = None
     from .util import roots_of
-    ctx.ob(rule, "remove|only-retain-in-requests", sites and all((roots_of(facts, s[0]) or {s[0]}) == {srv.REQUESTS} and s[2] == "retain" for s in sites), "removals from the connection map: %s" % sorted(sites))
+    if sites is not None:
+        ctx.ob(rule, "remove|only-retain-in-requests", sites and all((roots_of(facts, s[0]) or {s[0]}) == {srv.REQUESTS} and s[2] == "retain" for s in sites), "removals from the connection map: %s" % sorted(sites))
     for (fname, bb, kind, e) in removers[:1]:
         clo = look(e[4][2][1])
         if clo[0] != "closure":
